@@ -50,6 +50,7 @@ type vfAEnt struct {
 type vfAHdr struct {
 	Cls  string   `json:"cls"`
 	Nm   string   `json:"nm"`  // exact field name
+	Cn   string   `json:"cn"`  // canonical (lower-case, long form) field name
 	Val  string   `json:"val"` // interned value (trimmed of SP / HTAB)
 	Ents []vfAEnt `json:"ents"`
 }
@@ -384,7 +385,7 @@ func vfAlpha(raw []byte) vfAMsg {
 		}
 		name := ln[:c]
 		val := vfTrimLWS(ln[c+1:])
-		h := vfAHdr{Cls: vfClass(name), Nm: vfIntern.Id(name), Val: vfIntern.Id(val), Ents: []vfAEnt{}}
+		h := vfAHdr{Cls: vfClass(name), Nm: vfIntern.Id(name), Cn: vfCanonName(name), Val: vfIntern.Id(val), Ents: []vfAEnt{}}
 		switch h.Cls {
 		case "via":
 			for _, p := range vfSplitTop(val, ',') {
